@@ -8,8 +8,7 @@
      accumulators saturate (`saturating_mul(..).saturating_add(..)`, same in debug and release builds), so
      there is no arithmetic panic site and no build-profile switch.
    * loops are fuelled; the fuel handed out by the callers is shown sufficient in ValidatorTotal.v.
-   * the model is of the code as it is (e.g. DecimalEscape accepting a leading 0, `end` = chars().count(),
-     `[^` not treated as negation).  No proofs in this file. *)
+   * the model is of the code as it is.  No proofs in this file. *)
 From Coq Require Import List NArith ZArith Bool.
 From RecordUpdate Require Import RecordSet.
 From V Require Import Common.Str Regex.Reader Gen.UnicodeProps.
@@ -140,11 +139,11 @@ Definition eat_decimal_digits (s : vst) : R bool :=
 Definition eat_hex_digits (s : vst) : R bool :=
   let start := pos s in
   let* (_, s') := digits_loop (fuel_of s) true (s <| liv := 0%Z |>) in Ok (negb (Nat.eqb (pos s') start)) s'.
-(* DecimalEscape as written in the Rust (accepts a leading 0) *)
+(* DecimalEscape :: NonZeroDigit DecimalDigits(opt): `cp.is_ascii_digit() && cp != '0'` *)
 Definition eat_decimal_escape (s : vst) : R bool :=
   let s := s <| liv := 0%Z |> in
   match cp 0 s with
-  | Some c => if is_digit c then let* (_, s') := digits_loop (fuel_of s) false s in Ok true s' else Ok false s
+  | Some c => if is_digit c && negb (N.eqb c 48) then let* (_, s') := digits_loop (fuel_of s) false s in Ok true s' else Ok false s
   | None => Ok false s end.
 
 Fixpoint fixed_hex (n : nat) (start : nat) (s : vst) : bool * vst :=
@@ -473,6 +472,7 @@ Fixpoint class_ranges (f : nat) (s : vst) : R unit :=
 Definition consume_character_class (s : vst) : R bool :=
   let '(b, s1) := eat c_lb s in
   if negb b then Ok false s1 else
+  let '(_, s1) := eat c_caret s1 in   (* `[^`: self.eat('^'); *)
   let* (_, s2) := class_ranges (fuel_of s1) s1 in
   let '(b2, s3) := eat c_rb s2 in
   if b2 then Ok true s3 else SyntaxErr E_unterm_class s3.
